@@ -26,7 +26,47 @@ def p_field(x):
         return 'str form %r parses back to a different object' % str(r)
     if sorted(r.names) != G.names(f) or not isinstance(r.names, set):
         return 'names %r, mentioned %r' % (sorted(r.names), G.names(f))
+    # reading the names of the whole field changes nothing about its members: each group and each alternative
+    # still reports exactly the names it mentions, and the structure and the spelling are as before
+    for g, grp in zip(f, r.relationships):
+        want = sorted(set(a['name'] for a in g))
+        if sorted(grp.names) != want:
+            return 'after reading the names of the field, group %r reports names %r, it mentions %r' % (str(grp), sorted(grp.names), want)
+        for a, alt in zip(g, getattr(grp, 'relationships', [grp])):
+            if sorted(alt.names) != [a['name']]:
+                return 'after reading the names of the field, alternative %r reports names %r' % (str(alt), sorted(alt.names))
+    if sorted(r.names) != G.names(f) or _deps.rel_tree(r) != G.tree(f) or str(r) != canonical:
+        return 'reading names changes the parsed field %r' % text
+    # a caller changing what it got does not change what the next caller gets
+    r.names.add('zz-added')
+    try:
+        r.relationships = ()
+    except Exception:  # noqa
+        pass
+    r3 = _deps._quiet(deps.parse_depends, text)
+    if _deps.rel_tree(r3) != G.tree(f) or sorted(r3.names) != G.names(f):
+        return 'parse_depends(%r) after a caller changed an earlier result gives %r with names %r' % (text, _deps.rel_tree(r3), sorted(r3.names))
     return None
+
+
+def big_field(total=200000, align=4096):
+    """a field beyond 64 KiB in which the blank between two architecture names falls right before every multiple of 4096
+    characters (package names padded to get there)"""
+    f, parts, pos, i = [], [], 0, 0
+    while pos < total:
+        name = 'p%d' % i
+        lead = len(name) + len(' [amd64 ')
+        pad = (-(pos + lead)) % align
+        if pad > 300:
+            a = {'name': name, 'ver': ('>=', '1.%d' % i), 'archs': ['amd64', 'i386'] if i % 3 == 0 else []}
+        else:
+            a = {'name': name + 'x' * pad, 'ver': None, 'archs': ['amd64', 'i386', 'armhf']}
+        item = G.render_alt(None, a, canonical=True)
+        f.append([a])
+        parts.append(item)
+        pos += len(item) + 2
+        i += 1
+    return f, ', '.join(parts)
 
 
 def p_bad(text):
@@ -60,6 +100,8 @@ def run(ctx):
     bad += ctx.compare('corr:parse_relationship', [('parse_relationship', [t]) for t in small[:ctx.n(30000, 200000)]], impl)
 
     fails = ctx.prop('prop:grammar', cases, p_field)
+    bf, bt = big_field()
+    fails += ctx.prop('prop:grammar:large', [(bf, bt, bt), (bf[:3000], ',\n '.join(bt.split(', ')[:3000]), ', '.join(bt.split(', ')[:3000]))], p_field)
     fails += ctx.prop('prop:bad-clauses', G.BAD_CLAUSES + ['%s (%s)' % (rng.choice(G.NAMES), rng.choice(G.VERS)) for _ in range(200)]
                       + ['%s (%s)' % (rng.choice(G.NAMES), rng.choice(G.OPS)) for _ in range(200)]
                       + ['%s (%s %s %s %s)' % (rng.choice(G.NAMES), rng.choice(G.OPS), rng.choice(G.VERS), rng.choice(G.OPS), rng.choice(G.VERS)) for _ in range(200)],
